@@ -13,7 +13,7 @@ import json as _json
 from symx.api import harness
 
 from spyne import Application, Service, rpc, ComplexModel
-from spyne.model.primitive import Integer, Unicode, Decimal, Date, Boolean, Double
+from spyne.model.primitive import Integer, Unicode, Decimal, Date, Boolean, Double, Integer64, Integer32, Integer8, UnsignedInteger64
 from spyne.model.complex import Array
 from spyne.model.fault import Fault
 from spyne.protocol.json import JsonDocument
@@ -25,9 +25,13 @@ from spyne.context import MethodContext
 CAPTURE = {}
 
 
-class Inner(ComplexModel):
+class InnerBase(ComplexModel):
     __namespace__ = 'tns'
     v = Integer
+
+
+class Inner(InnerBase):          # v is inherited: parents' fields first, in every document form
+    __namespace__ = 'tns'
     w = Unicode
 
 
@@ -52,6 +56,11 @@ class Svc(Service):
     @rpc(Integer, _returns=[Integer, Unicode])
     def two(ctx, a):
         CAPTURE['args'] = (a,)
+        return CAPTURE.get('ret')
+
+    @rpc(Integer64, Integer32, Integer8, UnsignedInteger64, _returns=Integer64)
+    def fixed(ctx, i64, i32, i8, u64):
+        CAPTURE['args'] = (i64, i32, i8, u64)
         return CAPTURE.get('ret')
 
     @rpc(Array(Integer), _returns=Array(Integer))
@@ -471,6 +480,38 @@ def multi_return_and_big_ints(sx, cfg):
     wire = 'msgpack' if pname.startswith('msgpack') else None
     return sx.And(_leaf_eq(sx, 'int', got[0], a), _leaf_eq(sx, 'int', node['twoResult0'], r0, wire),
                   _leaf_eq(sx, 'str', node['twoResult1'], r1, wire))
+
+
+@harness('C02', params=[c for c in CONFIGS if not c[2]], label=LABEL, functions=FUNCS,
+         bounds={'values': 'every value of Integer64, Integer32, Integer8 and UnsignedInteger64 (the bounds themselves included), as '
+                           'arguments and as the return value'})
+def fixed_width_ints(sx, cfg):
+    """every value of a fixed-width integer type - its smallest and largest included - is delivered and returned unchanged,
+    under every validator setting"""
+    pname, wrappers, as_list, validator = cfg
+    app, server = get(*cfg)
+    wire = 'msgpack' if pname.startswith('msgpack') else None
+    vals = {'i64': sx.int('i64', -2 ** 63, 2 ** 63 - 1), 'i32': sx.int('i32', -2 ** 31, 2 ** 31 - 1),
+            'i8': sx.int('i8', -2 ** 7, 2 ** 7 - 1), 'u64': sx.int('u64', 0, 2 ** 64 - 1)}
+    ctx = deliver(sx, pname, app, server, {'fixed': dict((k, enc_int(sx, v, wire)) for k, v in vals.items())})
+    got = ctx.in_object
+    if got is None or len(got) != 4:
+        return False
+    ok = [_leaf_eq(sx, 'int', g, vals[k]) for g, k in zip(got, ('i64', 'i32', 'i8', 'u64'))]
+    r = sx.int('r', -2 ** 63, 2 ** 63 - 1)
+    doc = respond(sx, pname, app, ctx, [r])
+    if not isinstance(doc, (list, tuple)) or len(doc) != 1:
+        return False
+    node = _denorm(doc[0])
+    if wrappers:
+        if not isinstance(node, dict) or list(node.keys()) != ['fixedResponse']:
+            return False
+        node = node['fixedResponse']
+        if not isinstance(node, dict) or list(node.keys()) != ['fixedResult']:
+            return False
+        node = node['fixedResult']
+    ok.append(_leaf_eq(sx, 'int', node, r, wire))       # without wrappers a single return value is the document itself
+    return sx.And(*ok)
 
 
 def _int_text_eq(sx, text, v):
